@@ -37,6 +37,7 @@ def required_cells(tier):
               "crossing-carrier/miss", "crossing/hit-at-end", "crossing/hit-interior"):
         req["scen:" + s] = 10
     req["carrier:with-judged-inner-calls"] = 100 if tier == "quick" else 2000
+    req["gen:follow-up/same-carrier-and-start"] = 300 if tier == "quick" else 6000
     for hc in ("used-then-moved/receiver", "used-then-moved/returned", "moved/receiver"):
         req["pose:history/" + hc] = 30
     return req
@@ -71,6 +72,18 @@ def cases(rng, budget, widx, nworkers, tier):
             continue
         (a, b), label = gen.gen_pair(rng, ka, kb)
         yield C.maybe_hist({"a": a, "b": b, "label": label, "ls": rng.getrandbits(30)}, rng)
+        if b[0] in ("L", "H", "S") and rng.random() < 0.15:
+            # follow-up in the same process: the same first operand against another object on b's carrier that
+            # shares b's support / start point but has another extent or direction scale
+            p0, d0, lo, hi = K.one_d(b)
+            k2 = rng.choice(("L", "H", "S"))
+            sc = rng.choice((2, gen.F(1, 2), 3, -1, -2))
+            if k2 == "S":
+                b2 = ("S", p0, K.add(p0, K.mul(d0, sc)))
+            else:
+                b2 = (k2, p0, K.mul(d0, sc))
+            if gen.ok_coords(b2, 64, 40):
+                yield {"a": a, "b": b2, "label": "follow-up/same-carrier-and-start", "ls": rng.getrandbits(30)}
 
 
 def judge(case):
